@@ -112,4 +112,40 @@ def checkFsLine (dumpS3 : String) : String :=
         | some d => "ILL definition " ++ d.name.print
         | none => "ILL _Cont used as a type name"
 
+
+/-! ## scoped typing (adds: every variable occurrence is bound with its annotated chirality and type)
+
+Environments are lists of bindings, newest in front, looked up by id (first hit), exactly as in
+`Scc/AxCut/TypingNamed.lean`.  `wtFsScopedCheck` is the hypothesis of the typing-preservation
+statement `C04_shrink_typed_statement`; it is not needed for `C04_no_panic`. -/
+
+def lookupFs (Γ : Core.Ctx) (i : Nat) : Option Core.Binding := Γ.find? (fun b => b.var.id == i)
+
+def occFs (Γ : Core.Ctx) (b : Core.Binding) : Bool := lookupFs Γ b.var.id == some b
+
+mutual
+  def scTerm (Γ : Core.Ctx) : Core.FsTerm → Bool
+    | .var pc v ty => occFs Γ ⟨v, pc, ty⟩
+    | .lit _ => true
+    | .op a _ b => occFs Γ ⟨a, .prd, .i64⟩ && occFs Γ ⟨b, .prd, .i64⟩
+    | .mu pc v ty s => scStmt (⟨v, flipPC pc, ty⟩ :: Γ) s
+    | .xtor _ _ args _ => args.all (occFs Γ)
+    | .xcase _ _ cs => scClauses Γ cs
+  def scClauses (Γ : Core.Ctx) : Core.FsClauses → Bool
+    | .nil => true
+    | .cons _ ctx body rest => scStmt (ctx ++ Γ) body && scClauses Γ rest
+  def scStmt (Γ : Core.Ctx) : Core.FsStmt → Bool
+    | .cut _ p c => scTerm Γ p && scTerm Γ c
+    | .ifc _ a b t e =>
+      occFs Γ ⟨a, .prd, .i64⟩ && (match b with | none => true | some b => occFs Γ ⟨b, .prd, .i64⟩) &&
+      scStmt Γ t && scStmt Γ e
+    | .print _ a n => occFs Γ ⟨a, .prd, .i64⟩ && scStmt Γ n
+    | .call _ args => args.all (occFs Γ)
+    | .exit a => occFs Γ ⟨a, .prd, .i64⟩
+end
+
+/-- shape typing plus scoping -/
+def wtFsScopedCheck (p : Core.FsProg) : Bool :=
+  wtFsCheck p && p.defs.all (fun d => scStmt d.ctx d.body)
+
 end Scc.Core2AxCut
